@@ -169,6 +169,9 @@ func (session *HermesSession) Run(workingDir string, args []string, logID string
 		// ***************** GET CURRENT DATE FOR FERTILIZATION FORECAST ***************************
 		if PR {
 			tag, p1, p2 := g.LangTag(g.LAT, g.PROGDAT, g.ANJAHR)
+			if tag == 0 {
+				return fmt.Errorf("%s fertilizer prediction not possible: no day longer than 16 h at latitude %v", g.LOGID, g.LAT)
+			}
 			g.TAG.SetByIndex(tag - 1)
 			g.P1 = p1
 			g.P2 = p2
